@@ -82,12 +82,12 @@ TIERS = {
                   stp_cover=(2, '{1, 2}'), lpm_cover=(2, '{1, 2}', '{1, 2}'),
                   stp_dfs=(2, [1, 2], 400), lpm_dfs=(2, [1, 2], [1, 2], 60),
                   rand=dict(count=600, n=(4, 8), bufs=(1, 2, 3), ws=(1, 2, 3)),
-                  ds=dict(maxn=3, ws=[1, 2], bufs=[1, 2], seeds=2, real_rounds=1, shared=800)),
+                  ds=dict(maxn=3, ws=[1, 2], bufs=[1, 2], seeds=2, real_rounds=1, shared=800, big=400)),
     'thorough': dict(stp_mc=(4, '{1, 2, 3}'), lpm_mc=(4, '{1, 2, 3}', '{1, 2, 3}'),
                      stp_cover=(3, '{1, 2, 3}'), lpm_cover=(3, '{1, 2}', '{1, 2}'),
                      stp_dfs=(3, [1, 2, 3], 100000), lpm_dfs=(3, [1, 2], [1, 2], 1500),
                      rand=dict(count=20000, n=(4, 12), bufs=(1, 2, 3, 4), ws=(1, 2, 3)),
-                     ds=dict(maxn=4, ws=[1, 2, 3], bufs=[1, 2, 3], seeds=6, real_rounds=12, shared=8000)),
+                     ds=dict(maxn=4, ws=[1, 2, 3], bufs=[1, 2, 3], seeds=6, real_rounds=12, shared=8000, big=6000)),
 }
 
 
@@ -421,6 +421,7 @@ def explore(tier, res):
     dsp = t['ds']
     jobs_ds = [(c, rng.randrange(1 << 30)) for c in conc.ds_configs(dsp['maxn'], dsp['ws'], dsp['bufs'])
                for _ in range(dsp['seeds'])]
+    jobs_ds += [(c, rng.randrange(1 << 30)) for c in conc.ds_big_configs(rng, dsp['big'])]
     jobs_real = real_configs(dsp['real_rounds'], rng)
     jobs_shared = shared_jobs(rng, dsp['shared'])
     with mp.get_context('fork').Pool(common.NCPU) as pool:
@@ -513,7 +514,7 @@ def run(prop, tier):
                 {'family': 'conc', 'kind': r['kind'],
                  'cfg': {k: r[k] for k in r if k in ('api', 'backend', 'n', 'buf', 'w', 'fail_at', 'fail_cls',
                                                       'fn_fail', 'fail_kind', 'cfe', 'stop', 'stop_k',
-                                                      'prog', 'shape', 'seq')},
+                                                      'prog', 'shape', 'seq', 'via')},
                  'events': r['events'], 'end': r['end'], 'delivered': r['delivered'],
                  'deadlock': r['deadlock'], 'alive': r['alive'], 'verdict': [status, clause],
                  'how': 'controlled execution of the real threads, log judged by TLC'})
